@@ -96,7 +96,10 @@ fields as comments) and every *re-readable* option set — `O_rr` = {single-line
 `ReadToken` applied repeatedly to `WriteToString`'s text yields exactly the tokens the writer
 emitted (names, `:`, `{`, `}`, `[`, `]`, `,`, numbers, enum names, …), comments and white
 space dropped.  Single-line output *with* comments is excluded (`Opts.Rereadable`): a `#`
-comment swallows the rest of the line, see `C06_single_line_comments_counterexample`. -/
+comment swallows the rest of the line, see `C06_single_line_comments_counterexample`.
+The value tree may hold unreadable atomic fields / elements (`skip` nodes: the text of a view
+that is not `Ok`, written with `allow_partial_output`): they contribute no tokens, only
+`UNREADABLE` comments. -/
 theorem C06_tokens_roundtrip (o : Opts) (v : TVal) (ho : o.Rereadable) (hv : v.WF) :
     tokens (writeToString o v) = some (toks (writeVal o v)) := by
   have := tokens_of_wellSep (writeVal o v) .other ((render (writeVal o v)).length + 1)
@@ -303,7 +306,11 @@ are left unread.
 Proved here under `noMultilineArray o v`: in multi-line mode no array has two or more elements
 (open finding `multiline-array-elements-not-comma-separated`: the multi-line writer puts no `,`
 between elements, the array reader insists on one).  Single-line arrays of any length, and
-multi-line arrays with at most one element, are covered; nothing else is excluded. -/
+multi-line arrays with at most one written element, are covered; nothing else is excluded.
+Trees with unreadable atomic leaves (`skip` nodes; `allow_partial_output` on a view that is not
+`Ok`) are included: their text is re-read too and yields exactly the *readable* leaves, each at
+its own path — an array element after a skipped one keeps its index because the single-line
+writer then emits an explicit `[i]:` (`skipped_unreadable`), the multi-line writer always. -/
 theorem C06_text_roundtrip_partial (o : Opts) (v : TVal) (s : RShape) (ho : o.Rereadable)
     (hv : v.WF) (hm : Matches s v) (hml : noMultilineArray o v) :
     ∃ rest, updateFromText s (writeToString o v) = .ok (writesVal [] v) rest ∧
@@ -385,10 +392,72 @@ example : exOptsML.Rereadable ∧ exTreeML.WF ∧ Matches exShapeML exTreeML ∧
   · intro _
     exact ⟨trivial, ⟨by decide, trivial, trivial⟩, ⟨trivial, trivial⟩, trivial⟩
 
+/-! Non-vacuity with unreadable leaves (a view that is not `Ok`, written with
+`allow_partial_output`): `exTreeP` = `{ n, bad (unreadable), xs = [1, unreadable, 3, unreadable] }`.
+Single-line: the element after a skipped one carries its index, the text is re-read and yields
+exactly the readable leaves at their own paths.  Multi-line with comments: the unreadable
+element / field are mentioned in comments only. -/
+def exTreeP : TVal :=
+  .struct (.cons "n".toList false (.scalar (.int .u8 2))
+    (.skip "bad".toList
+    (.cons "xs".toList false (.arr false (.cons (.scalar (.int .u16 1)) (.skip
+      (.cons (.scalar (.int .u16 3)) (.skip .nil))))) .nil)))
+def exShapeP : RShape :=
+  .struct (.cons "n".toList (.scalar (.int .u8 0 255))
+    (.cons "bad".toList (.scalar (.int .u8 0 9))
+    (.cons "xs".toList (.arr 4 (.scalar (.int .u16 0 65535))) .nil)))
+
+example : exOptsSL.Rereadable ∧ exTreeP.WF ∧ Matches exShapeP exTreeP ∧
+    noMultilineArray exOptsSL exTreeP ∧ ¬ noMultilineArray exOptsML exTreeP := by
+  refine ⟨⟨by decide, by decide, by decide⟩, ?_, ?_, (by intro h; cases h), ?_⟩
+  · simp [exTreeP, TVal.WF, TFields.WF, TVals.WF, Scalar.WF, ValidWord, isDelim, isSpace, isPunct]
+  · exact ⟨⟨_, rfl, rfl, by decide, by decide, by decide⟩,
+      ⟨_, rfl, rfl, by decide, ⟨rfl, by decide, by decide, by decide⟩,
+        ⟨rfl, by decide, by decide, by decide⟩, trivial⟩, trivial⟩
+  · intro h
+    have h2 : (2 : Nat) ≤ 1 := (h rfl).2.1.1
+    exact absurd h2 (by decide)
+
+example : String.ofList (writeToString exOptsSL exTreeP) = "{ n: 0x2, xs: { [0x0]: 0x1, [0x2]: 0x3, } }" ∧
+    updateFromText exShapeP (writeToString exOptsSL exTreeP) =
+      .ok [("n".toList, .int 2), ("xs[0]".toList, .int 1), ("xs[2]".toList, .int 3)] [] ∧
+    String.ofList (writeToString exOptsML exTreeP) =
+      "{\n  n: 2  # 0x2\n  # bad: UNREADABLE\n  xs: {\n    [0]: 1  # 0x1\n    # [1]: UNREADABLE\n    [2]: 3  # 0x3\n    # [3]: UNREADABLE\n  }\n}" := by
+  decide +kernel
+
 example : String.ofList (writeToString exOptsML exTreeML) =
       "{\n  k: -5\n  xs: {\n    # H\n    [0]: 72  # 0x48\n  }\n  s: {\n    b: false\n  }\n}" ∧
     updateFromText exShapeML (writeToString exOptsML exTreeML) =
       .ok [("k".toList, .int (-5)), ("xs[0]".toList, .int 72), ("s.b".toList, .bool false)] [] := by
+  decide +kernel
+
+/-! The writer model on the two views the repository's own tests pin for `allow_partial_output`
+(compiler/back_end/cpp/testcode/requires_test.cc, `WriteToString.NotOkFieldsAreNotWritten` and
+`NotOkArrayElementsAreNotWritten`; tests over literals): the model's text is the pinned text. -/
+def exPinnedFields : TVal :=
+  .struct (.cons "zero_through_nine".toList false (.scalar (.int .u8 0))
+    (.skip "ten_through_twenty".toList
+    (.cons "disjoint".toList false (.scalar (.int .u8 0))
+    (.skip "ztn_plus_ttt".toList
+    (.skip "alias_of_zero_through_nine".toList
+    (.cons "zero_through_nine_plus_five".toList false (.scalar (.int .i32 5)) .nil))))))
+def exPinnedElems : TVal :=
+  .struct (.cons "xs".toList false (.arr false
+    (.cons (.struct (.skip "x".toList .nil))
+    (.cons (.struct (.cons "x".toList false (.scalar (.int .u8 0)) .nil))
+    (.cons (.struct (.skip "x".toList .nil))
+    (.cons (.struct (.cons "x".toList false (.scalar (.int .u8 5)) .nil)) .nil))))) .nil)
+def exOptsDefault : Opts := ⟨false, false, .b10, false, [], []⟩
+
+example :
+    String.ofList (writeToString exOptsML exPinnedFields) =
+      "{\n  zero_through_nine: 0  # 0x0\n  # ten_through_twenty: UNREADABLE\n  disjoint: 0  # 0x0\n  # ztn_plus_ttt: UNREADABLE\n  # alias_of_zero_through_nine: UNREADABLE\n  zero_through_nine_plus_five: 5  # 0x5\n}" ∧
+    String.ofList (writeToString exOptsDefault exPinnedFields) =
+      "{ zero_through_nine: 0, disjoint: 0, zero_through_nine_plus_five: 5 }" ∧
+    String.ofList (writeToString exOptsML exPinnedElems) =
+      "{\n  xs: {\n    [0]: {\n      # x: UNREADABLE\n    }\n    [1]: {\n      x: 0  # 0x0\n    }\n    [2]: {\n      # x: UNREADABLE\n    }\n    [3]: {\n      x: 5  # 0x5\n    }\n  }\n}" ∧
+    String.ofList (writeToString exOptsDefault exPinnedElems) =
+      "{ xs: { [0]: { }, { x: 0 }, { }, { x: 5 } } }" := by
   decide +kernel
 
 /-! ## The array reader refuses the multi-line writer's own output (open finding) -/
